@@ -178,8 +178,8 @@ func runC15(c *core.Ctx) {
 	}
 	// readers never see staging
 	for _, fn := range handwritten {
-		if fn.Parent() != nil {
-			continue
+		if fn.Parent() != nil || isPrivateHelper(c, fn) && fn.Signature.Recv() == nil {
+			continue // pure helpers working on a table they are given are checked at their callers
 		}
 		mut := false
 		for _, f := range []*types.Var{staging, services, lastID} {
@@ -292,6 +292,47 @@ func checkIDUse(c *core.Ctx, fn *ssa.Function, inc *ssa.Store, staging, lastID, 
 // nameScanBefore: a range over map field m dominates the insert, and inside
 // it a Name equality leads only to error returns.
 func nameScanBefore(fn *ssa.Function, insert ssa.Instruction, m, nameF *types.Var) (bool, string) {
+	// form 2: the scan lives in a helper found(table, name) (…, bool) called with
+	// the table; the insert is only reached when it reports "not found"
+	for _, call := range core.Calls(fn) {
+		cv, ok := call.(*ssa.Call)
+		if !ok || !core.Dominates(cv, insert) {
+			continue
+		}
+		h := cv.Call.StaticCallee()
+		if h == nil || h.Pkg != fn.Pkg || len(h.Blocks) == 0 {
+			continue
+		}
+		mi := -1
+		for i, a := range cv.Call.Args {
+			if isFieldOf(a, m) && i < len(h.Params) {
+				mi = i
+			}
+		}
+		if mi < 0 {
+			continue
+		}
+		bi := -1
+		for i := 0; i < h.Signature.Results().Len(); i++ {
+			if b, ok := h.Signature.Results().At(i).Type().Underlying().(*types.Basic); ok && b.Kind() == types.Bool {
+				bi = i
+			}
+		}
+		if bi < 0 {
+			continue
+		}
+		if !helperScansNames(h, h.Params[mi], nameF, bi) {
+			continue
+		}
+		found := func(v ssa.Value) bool {
+			e, ok := core.Canon(v).(*ssa.Extract)
+			return ok && e.Tuple == ssa.Value(cv) && e.Index == bi
+		}
+		if core.Guarded(fn, insert, core.IsFalse(found)) {
+			return true, ""
+		}
+		return false, "a name already present in " + m.Name() + " does not prevent the insert"
+	}
 	for _, b := range fn.Blocks {
 		for _, in := range b.Instrs {
 			rg, ok := in.(*ssa.Range)
@@ -470,4 +511,59 @@ func checkEvent(c *core.Ctx, fn *ssa.Function, name string, lk *ssa.Lookup, tr s
 	c.Check(!missing, "C15.events", base+"/every-path", firstPos(pos, tr.Pos()),
 		"every success path through the transition emits "+name+" (unless no signal helper is installed)",
 		"a success path through the transition returns without emitting "+name)
+}
+
+// helperScansNames: h ranges over its table parameter, compares the Name of
+// each entry, returns true (result bi) on a match and false only after the
+// whole table was scanned.
+func helperScansNames(h *ssa.Function, table ssa.Value, nameF *types.Var, bi int) bool {
+	for _, b := range h.Blocks {
+		for _, in := range b.Instrs {
+			rg, ok := in.(*ssa.Range)
+			if !ok || core.Canon(rg.X) != core.Canon(table) {
+				continue
+			}
+			for _, b2 := range h.Blocks {
+				ifi, ok := b2.Instrs[len(b2.Instrs)-1].(*ssa.If)
+				if !ok {
+					continue
+				}
+				cm, neg := core.CondCmp(ifi.Cond)
+				if (cm.Op != token.EQL && cm.Op != token.NEQ) || !isFieldOf(cm.X, nameF) && !isFieldOf(cm.Y, nameF) {
+					continue
+				}
+				fromRange := func(v ssa.Value) bool {
+					if e, ok := core.RootOf(v).(*ssa.Extract); ok {
+						if nx, ok := e.Tuple.(*ssa.Next); ok && nx.Iter == ssa.Value(rg) {
+							return true
+						}
+					}
+					return false
+				}
+				if !fromRange(cm.X) && !fromRange(cm.Y) {
+					continue
+				}
+				eqEdge := 0
+				if (cm.Op == token.NEQ) != neg {
+					eqEdge = 1
+				}
+				r := core.ReachFrom(core.Point{B: b2.Succs[eqEdge], I: 0}, func(x ssa.Instruction) bool { return x.Block() == rg.Block() }, nil)
+				okTrue := true
+				n := 0
+				for _, ret := range core.Returns(h) {
+					if r.Has(ret) || ret.Block() == b2.Succs[eqEdge] {
+						n++
+						if bv, isConst := core.ConstBool(core.RetVal(ret, bi)); !isConst || !bv {
+							okTrue = false
+						}
+					}
+				}
+				// every `false` return happens outside the match branch, i.e. after the scan
+				if okTrue && n > 0 {
+					return true
+				}
+			}
+		}
+	}
+	return false
 }
